@@ -237,6 +237,13 @@ fn other_cases() -> Vec<MCase> {
     push("servings", "5 cups worth", None, Exp::Servings(vec![5]), "servings_text");
     push("servings", "2 people|4 people", None, Exp::Servings(vec![2, 4]), "servings_text");
     push("servings", "12|6", None, Exp::Servings(vec![12, 6]), "servings_pipes");
+    // the leading number ends where the digits end, whatever follows
+    push("servings", "4-6 people", None, Exp::Servings(vec![4]), "servings_text");
+    push("servings", "6, generous", None, Exp::Servings(vec![6]), "servings_text");
+    push("servings", "2/person|4/pair", None, Exp::Servings(vec![2, 4]), "servings_text");
+    push("servings", "4(big)", None, Exp::Servings(vec![4]), "servings_text");
+    push("servings", "8+|12+", None, Exp::Servings(vec![8, 12]), "servings_text");
+    push("servings", "[2, '4-6 big'] (yaml)", Some("[2, '4-6 big']"), Exp::Servings(vec![2, 4]), "servings_list");
     push("servings", "[2, 4] (yaml)", Some("[2, 4]"), Exp::Servings(vec![2, 4]), "servings_list");
     push("servings", "[2, '4 big'] (yaml)", Some("[2, '4 big']"), Exp::Servings(vec![2, 4]), "servings_list");
     for (t, y) in [("2|2", None), ("2|4|2", None), ("[3, 3] (yaml)", Some("[3, 3]")), ("[3, '3 x'] (yaml)", Some("[3, '3 x']"))] {
